@@ -45,7 +45,7 @@ _P["level_text"] += (
     "its Newton loop (made visible through maxit2_ = 0, 1, 2, …) — on the unchanged tree model and implementation follow the same trajectory in every case sampled. "
     "NOT PROVED: convergence of the Newton iteration, that Lambda12 has the sign structure assumed by bracket_contains_root, global minimality; s12 ≥ 0 on the meridional and Newton branches; the F64 laws of the head (AngDiff antisymmetry) are C16's. "
     "Open findings of this round (each a decidable class, everything else alarms): F61 a12 > 180 by ulps at the equatorial cut-off, F62 zero-length answer 1–64 ulp beyond the cut-off on strongly oblate ellipsoids, F63 bisection budget too small "
-    "on strongly eccentric ellipsoids (errors of metres), F64 uninitialised s12x in GeodesicExact's meridional guard, F65 non-shortest answer (second root of lambda12, m12 < 0, thousands of km longer) on strongly prolate ellipsoids for "
+    "on strongly eccentric ellipsoids (errors of metres), F64 uninitialised s12x in GeodesicExact's meridional guard (found independently, repaired meanwhile by dc6d194), F65 non-shortest answer (second root of lambda12, m12 < 0, thousands of km longer) on strongly prolate ellipsoids for "
     "points within round-off of opposite meridians. One false alarm of the new strata removed: the position tolerance is scaled with the quarter meridian (the normalisation of the library's accuracy tables) instead of a on prolate ellipsoids.")
 _P["rule"] += ("; deepening round strata next to every branch boundary of GenInverse: inverse-14 equatorial cut-off lon12 = 180(1−f) ± 4 ulp incl. denormal latitudes, inverse-15 tiny latitudes 1e-18…1e-5° around the equatorial conjugate "
                "distance (loop crosses maxit1_, ends by tripb / maxit2_), inverse-16 meridional candidate on the boundary of its acceptance (found by bisection on the returned azimuth) and arcs of one radian over the pole, inverse-17 arc length "
